@@ -628,6 +628,11 @@ def agg_helper(inp, W):
     if inp["form"] == "vector":
         return {"out": f(inp["x"], *pos, **kw)}
     data = di.DataFrame(g=inp["g"], x=inp["x"])
+    if inp.get("then"):
+        t = inp["then"]
+        tpos = [t["index"]] if t["helper"] == "nth" else []
+        out = data.group_by("g").aggregate(y=f("x", *pos, **kw), y2=getattr(di, t["helper"])("x", *tpos, **_helper_kwargs(t)))
+        return {"out": out}
     out = data.group_by("g").aggregate(y=f("x", *pos, **kw))
     return {"out": out}
 
